@@ -31,6 +31,11 @@ func randomInt64() (result int64) {
 }
 
 func saturatedMultiply(left int64, right float64) int64 {
+	if left == 0 {
+		// 0 * +Inf is NaN in float64, which would saturate below
+		return 0
+	}
+
 	if tmp := float64(left) * right; tmp < math.MaxInt64 {
 		return int64(tmp)
 	}
